@@ -67,7 +67,11 @@ func RenderSlot(s ResSlot, partials bool) string {
 		w("")
 		w("")
 	}
-	w("apiVersion: %s", apiVersionOf(s.Kind))
+	if s.Group != "" {
+		w("apiVersion: %s/v1", s.Group)
+	} else {
+		w("apiVersion: %s", apiVersionOf(s.Kind))
+	}
 	w("kind: %s", s.Kind)
 	w("metadata:")
 	w("  name: %s", s.Name)
